@@ -18,7 +18,7 @@ func checkC18(c *an.Ctx) {
 	c.Rule("C18.2", "duplicate stage name (E2): the stage's final name is looked up in the graph under construction before AddStage; found → non-nil error")
 	c.Rule("C18.3", "watcher → task (E3): a lookup of the watcher's task in Config.Tasks dominates NewWatcher; absent → non-nil error")
 	c.Rule("C18.4", "depends_on → stage (E3/E5): after the last stage of a pipeline was added, every element of every stage's DependsOn itself (not a transformed copy) is looked up in the node set of the same graph; absent → non-nil error that fails the load")
-	c.Rule("C18.5", "inclusion cycles (E3/E7): on every success path of buildFromDefinition a recursive walk over Stage.Pipeline links runs for every pipeline, with a mark set allocated per starting pipeline that describes the current path (un-marked on every cycle-free exit), reports a revisit as a non-nil error, and that error fails the load")
+	c.Rule("C18.5", "inclusion cycles (E3/E7): on every success path of buildFromDefinition a recursive walk over Stage.Pipeline links runs for every pipeline (no pass of the loop over Config.Pipelines reaches the next one without starting the walk), with a mark set allocated per starting pipeline that describes the current path (un-marked on every cycle-free exit), reports a revisit as a non-nil error, and that error fails the load")
 	c.Rule("C18.6", "consumers are guarded (E3/E5): the recursive consumers of Stage.Pipeline (scheduler, graph drawing) take their graphs from Config.Pipelines, which passed C18.4/C18.5; no function that follows Stage.Pipeline recursively can run during a load before the inclusion walk has been called")
 	c.Rule("C18.8", "verdicts survive (E7): no deferred function of internal/config overwrites the named error result of its function with a value that may be nil — allowed are freshly built errors (the recover pattern) and stores made only while the result is still nil; a clean-up that assigns its own outcome to err turns every rejection reported through that function into an acceptance")
 	c.Rule("C18.7", "a rejected configuration is rejected with an error, not with a hang (E8): no channel operation, Cond.Wait or polling loop is synchronously reachable from Loader.Load / LoadGlobalConfig unless it has an unconditional waker (the rule of C15.10 on the two entry points that accept or reject a configuration)")
@@ -710,6 +710,17 @@ func inclusionCycles(c *an.Ctx, bfd *ssa.Function, rule string) {
 			allPipes = an.FieldProv(loop.RangeOperand()) == "Config.Pipelines"
 		}
 		c.Check(allPipes, rule, key+":all-pipelines", root.Pos(), "the walk is started from every pipeline of the configuration", "the inclusion walk is not started from every entry of Config.Pipelines")
+		if allPipes {
+			// … on every pass: no pass of the loop gets back to the header without having started the walk
+			// (a walk started from "top-level" pipelines only never enters a closed cycle that nothing else includes)
+			everyPass := true
+			for _, latch := range loop.Latches {
+				if latch != root.Block() && !root.Block().Dominates(latch) {
+					everyPass = false
+				}
+			}
+			c.Check(everyPass, rule, key+":every-pass", root.Pos(), "no pass of the loop over Config.Pipelines skips the walk", "some pass of the loop over Config.Pipelines goes on to the next pipeline without starting the inclusion walk from this one: a cycle that is entered only from skipped pipelines is never walked, the configuration loads, and running or drawing it recurses for ever")
+		}
 		for _, a := range root.Common().Args {
 			if _, isMap := a.Type().Underlying().(*types.Map); !isMap {
 				continue
